@@ -826,7 +826,20 @@ def run(ctx):
     ctx.note(f"input representations of the same lattice coordinates (calls per representation): {by_rep}; every representation "
              f"is judged against the same exact expectation (integer representations where the tick is a whole number, which "
              f"holds for about half of the instances; float32 where all squared magnified radii are <= {F32_MAX_N2} and the tick is dyadic)")
+    far = [r for r in relrecs if r["off"][:2] != [0, 0]]
+    ticks_used = sorted({r["tick"] for r in relrecs})
+    ctx.note(f"translation and scale: {len(far)} of {len(relrecs)} relocation calls were made with every coordinate (data grid and "
+             f"mesh) translated by (ky, kx) * 2^e ticks, e = {min((r['off'][2] for r in far), default=0)} .. "
+             f"{max((r['off'][2] for r in far), default=0)}, |k| <= 3, with dyadic ticks so that every coordinate is exactly "
+             f"representable and every coordinate difference is exact; ticks (scales) used: 2^-20 .. 2^20 among {ticks_used}; "
+             f"results are taken back into the untranslated frame and judged against the ONE expectation of the lattice instance "
+             f"(RelTranslationInvariant / RelScaleCovariant are checked by TLC on the relocation machine)")
     ctx.assumptions = [
+        "translated instances: the exponent e of the offset is limited per instance so that the rounding of the float64 border "
+        "centroid (about 2^(e-51) ticks) stays 16x below the smallest possible gap between two different radii of the instance, "
+        "1 / (2 n max(n r)) ticks (n border points, n r <= 16000 in the magnified lattice): e <= 30 for the enumerated small "
+        "instances (border and points within a few ticks), e <= about 23..27 for the random larger ones; beyond that range even "
+        "the unchanged float64 implementation cannot decide interior / outside exactly. float32 realisations are untranslated",
         "a plain Python list is used as a representation for mesh vertices only (the library fancy-indexes the data grid, "
         "which a list does not support on the unchanged tree); float32 realisations are restricted to small instances because "
         "float32 arithmetic inside the library cannot keep the exact interior / nearest-border decisions for larger coordinates",
